@@ -164,6 +164,11 @@ func parseBlock(t *Tree, start Pos) (Node, error) {
 //	{% if <expr> %}
 //	{% elseif <expr> %}
 func parseIf(t *Tree, start Pos) (Node, error) {
+	// An elseif branch is parsed as an if nested in the else body.
+	defer func() { t.depth-- }()
+	if err := t.deeper(); err != nil {
+		return nil, err
+	}
 	cond, err := t.parseExpr()
 	if err != nil {
 		return nil, err
